@@ -327,7 +327,7 @@ def register_histogram_el(ix):
            "self._hist.edges == old(self._hist.edges)", "len(self._hist.bins) == len(self._hist.edges) - 1",
            "self._hist.n_out_of_range == 0", "self._hist.dim == 1", "self._cur_context == emptydict()"]
     ix.add(Contract(
-        HI, "Histogram.reset", props=["C09"],
+        HI, "Histogram.reset", props=["C09", "C06"],   # C06: weight conservation "for the Histogram element alike", also when reused
         cases=[
             Contract(HI, "Histogram.reset", name="Histogram.reset[initial value]",
                      params={"self": "Self[Histogram]"},
@@ -335,14 +335,14 @@ def register_histogram_el(ix):
                      modifies=["self._hist", "self._cur_context"]),
         ]))
     ix.add(Contract(
-        HI, "Histogram.reset", qualkey="Histogram_ib.reset", name="Histogram.reset[initial bins]", props=["C09"],
+        HI, "Histogram.reset", qualkey="Histogram_ib.reset", name="Histogram.reset[initial bins]", props=["C09", "C06"],
         params={"self": "Self[Histogram_ib]"},
         # the initial bins are copied: filling the new structure must not change them
         ensures=NEW + ["self._hist.bins == self._initial_bins", "self._hist.bins is not self._initial_bins"],
         modifies=["self._hist", "self._cur_context"]))
     BAD_EDGES = "len(edges) <= 1 or not " + C06.incr("edges")
     ix.add(Contract(
-        HI, "Histogram.__init__", props=["C09"],
+        HI, "Histogram.__init__", props=["C09", "C06"],
         params={"self": "Self[Histogram0]", "edges": "Lst[Real]", "bins": "None", "make_bins": "None", "initial_value": "Real"},
         defaults={"bins": None, "make_bins": None, "initial_value": 0},
         raises={"LenaValueError": BAD_EDGES},
